@@ -341,6 +341,19 @@ impl<'a, 'tcx> BodyCx<'a, 'tcx> {
                 } else {
                     v.push(("def", s(self.cx.path(uv.def))));
                     v.push(("def_hash", s(self.cx.hash(uv.def))));
+                    if (ty.is_integral() || ty.is_bool()) && uv.args.is_empty() {
+                        if let Some(si) = c.const_.try_eval_scalar_int(tcx, self.env) {
+                            let size = si.size();
+                            if ty.is_signed() {
+                                v.push(("int", J::Int(si.to_int(size))));
+                            } else {
+                                let u = si.to_uint(size);
+                                if u <= i128::MAX as u128 {
+                                    v.push(("int", J::Int(u as i128)));
+                                }
+                            }
+                        }
+                    }
                 }
             }
             mir::Const::Val(val, _) => {
@@ -704,6 +717,7 @@ fn type_tree<'tcx>(cx: &Cx<'tcx>, roots: Vec<Ty<'tcx>>) -> J {
                 let krate = cx.krate_of(adt.did());
                 let stdlike = matches!(krate.as_str(), "std" | "core" | "alloc");
                 let mut children = vec![];
+                let mut variants = vec![];
                 if stdlike {
                     // do not look inside std containers; walk their type arguments
                     for ga in args.iter() {
@@ -714,11 +728,14 @@ fn type_tree<'tcx>(cx: &Cx<'tcx>, roots: Vec<Ty<'tcx>>) -> J {
                     }
                 } else {
                     for var in adt.variants() {
+                        let mut fts = vec![];
                         for f in &var.fields {
                             let ft = f.ty(tcx, args);
                             children.push(s(cx.ty(ft)));
+                            fts.push(J::Obj(vec![("name", s(f.name.to_string())), ("ty", s(cx.ty(ft)))]));
                             work.push(ft);
                         }
+                        variants.push(J::Obj(vec![("name", s(var.name.to_string())), ("fields", J::Arr(fts))]));
                     }
                 }
                 out.push(J::Obj(vec![
@@ -727,6 +744,7 @@ fn type_tree<'tcx>(cx: &Cx<'tcx>, roots: Vec<Ty<'tcx>>) -> J {
                     ("krate", s(krate)),
                     ("opaque", J::Bool(stdlike)),
                     ("children", J::Arr(children)),
+                    ("variants", J::Arr(variants)),
                 ]));
             }
             ty::Ref(_, inner, _) | ty::RawPtr(inner, _) | ty::Slice(inner) | ty::Array(inner, _) => {
